@@ -247,6 +247,9 @@ structure Env where
   shuffles : List (List Nat) := []
   /-- broker clients whose close Deferred fires inside `close()` (nothing to tear down) -/
   syncDown : List Nat := []
+  /-- the order in which `close()` iterates the SET of sleeping `_load_topic_partitions` retry delays
+      (hash order of Deferred objects: not determined by anything the model knows) -/
+  delayOrder : List Nat := []
   deriving Repr
 
 structure St where
@@ -844,7 +847,9 @@ def exec (cfg : Cfg) (st : St) : Act → St × List Ob × List Act
     | none => (st, [.badOp "ltpFail"], [])
     | some x => ({ st with ltps := st.ltps.map (fun y => if y.l == l then { y with phase := .done } else y) }, [], [.opResult x.o (.fail kd)])
   | .cancelDelays =>
-    (st, [], (st.ltps.filter (fun x => x.phase == .sleeping)).map (fun x => Act.cancelDelay x.l))
+    -- every sleeping delay is cancelled once; the environment picks the order among them
+    let sl := (st.ltps.filter (fun x => x.phase == .sleeping)).map (fun x => x.l)
+    (st, [], ((st.env.delayOrder.filter sl.contains) ++ sl.filter (fun l => !st.env.delayOrder.contains l)).map Act.cancelDelay)
   | .cancelDelay l =>
     -- `deferLater(...).cancel()`: the delayed call is cancelled and the coroutine sees CancelledError
     if timerActive st (.retry l) then (cancelTimer st (.retry l), [.cancelTimer (.retry l)], [.ltpFail l .cancelled])
@@ -1049,6 +1054,9 @@ inductive TItem where
   | bootGone (j : Nat)
   /-- the simulated network saw a connection attempt / a frame (recorded after `close()` only) -/
   | net (what : String)
+  /-- an exception of class `cls` escaped from a callback into the reactor (which logs it and goes on).
+      No step of the model produces this item. -/
+  | exc (cls : String)
   deriving Repr
 
 /-- the model's own trace for a list of events, in the same vocabulary -/
